@@ -87,8 +87,26 @@ func Harness_C16_trip() {
 		hasExt = append(hasExt, he)
 		tu.StopTimeUpdate = append(tu.StopTimeUpdate, stu)
 	}
+	// the feed may already carry a vehicle descriptor of its own: 0 none, 1 with an id and a label, 2 label only
+	vkind := hConcretize(vr.Int("feed_vehicle.kind", 0, 2), 0, 2)
+	var feedVehicle *gtfsrt.VehicleDescriptor
+	switch vkind {
+	case 1:
+		fid, fl := vr.Str("feed_vehicle.id"), vr.Str("feed_vehicle.label")
+		vr.Assume(fid != "")
+		feedVehicle = &gtfsrt.VehicleDescriptor{Id: &fid, Label: &fl}
+	case 2:
+		fl := vr.Str("feed_vehicle.label")
+		vr.Assume(fl != "")
+		feedVehicle = &gtfsrt.VehicleDescriptor{Label: &fl}
+	}
+	tu.Vehicle = feedVehicle
 	ver, eid := "2.0", "e"
-	msg := &gtfsrt.FeedMessage{Header: &gtfsrt.FeedHeader{GtfsRealtimeVersion: &ver}, Entity: []*gtfsrt.FeedEntity{{Id: &eid, TripUpdate: tu}}}
+	ent := &gtfsrt.FeedEntity{Id: &eid, TripUpdate: tu}
+	if vr.Param("ENT", 0) == 1 { // the same descriptors on a vehicle position entity
+		ent = &gtfsrt.FeedEntity{Id: &eid, Vehicle: &gtfsrt.VehiclePosition{Trip: td, Vehicle: feedVehicle}}
+	}
+	msg := &gtfsrt.FeedMessage{Header: &gtfsrt.FeedHeader{GtfsRealtimeVersion: &ver}, Entity: []*gtfsrt.FeedEntity{ent}}
 	opts := nycttrips.ExtensionOpts{PreserveMTrainPlatformsInBushwick: true}
 	r, err := gtfs.ParseRealtime(vr.Marshal(msg), &gtfs.ParseRealtimeOptions{Extension: nycttrips.Extension(opts)})
 	vr.Assert("C16.returns", err == nil && r != nil)
@@ -120,8 +138,11 @@ func Harness_C16_trip() {
 			vr.Assert("C16.assigned.vehicle", t.Vehicle != nil && t.Vehicle.ID != nil && t.Vehicle.ID.ID == train)
 			vr.Assert("C16.assigned.vehicles", len(r.Vehicles) == 1 && r.Vehicles[0].Trip != nil)
 		}
-	} else {
+	} else if vkind == 0 && vr.Param("ENT", 0) == 0 {
 		vr.Assert("C16.unassigned.no_vehicle", t.Vehicle == nil && len(r.Vehicles) == 0)
+	}
+	if vr.Param("ENT", 0) == 1 {
+		return // a vehicle position carries no stop time updates
 	}
 	vr.Assert("C16.stop_times", len(t.StopTimeUpdates) == S)
 	if len(t.StopTimeUpdates) != S {
